@@ -79,6 +79,10 @@ def main():
     rc = 0
     for patch in patches:
         patch = os.path.abspath(patch)
+        reb = os.path.join(os.path.dirname(patch), "patch_rebased.diff")
+        if os.path.basename(patch) == "patch.diff" and os.path.exists(reb):
+            # the tree was repaired after this change was handed in
+            patch = reb
         key = os.path.relpath(patch, VERIF)
         # one report per directory (several people run this in parallel)
         report_path = os.path.join(os.path.dirname(patch), "REPORT.json")
